@@ -15,6 +15,7 @@ Along every path a DIRTY marker remembers the first document mutation; a rejecti
 from __future__ import annotations
 
 import ast
+import re
 from dataclasses import dataclass, field
 
 from sa.model import AnalysisError, Func, Program, alpha, norm
@@ -159,6 +160,8 @@ class Summary:
     dirty_raises: dict = field(default_factory=dict)  # exc -> origins mutated before it may escape
     mut_sub: set = field(default_factory=set)  # params of which a *sub-object* (not only the object itself) is mutated
     calls: list = field(default_factory=list)  # (callee summary, {callee param: caller-relative origins})
+    captures: set = field(default_factory=set)  # params whose value (or a wrapper of it) is stored into a caller-owned object
+    shared_into_doc: list = field(default_factory=list)  # (func, node, text, origins): a memoised object stored into a document
     skey: tuple = ()
 
 
@@ -231,6 +234,29 @@ class Effects:
 
 class _Term(Exception):
     pass
+
+
+MEMO_DECORATORS = {"lru_cache", "cache", "cached_property", "memoize", "memoized"}
+IMMUTABLE_RETURNS = {"str", "int", "bool", "float", "bytes", "None", "complex", "frozenset", "Pattern", "re.Pattern"}
+
+
+def memoised(f: Func) -> bool:
+    """the function's results are remembered across calls (functools.lru_cache / cache / cached_property)"""
+    for d in f.node.decorator_list:
+        t = d.func if isinstance(d, ast.Call) else d
+        name = t.attr if isinstance(t, ast.Attribute) else (t.id if isinstance(t, ast.Name) else None)
+        if name in MEMO_DECORATORS:
+            return True
+    return False
+
+
+def immutable_annotation(ann) -> bool:
+    """a return annotation naming only immutable builtins (tuples/unions of them included)"""
+    if ann is None:
+        return False
+    t = ast.unparse(ann).replace('"', "").replace("'", "")
+    toks = [x for x in re.split(r"[\[\]|, ]+", t) if x and x not in ("tuple", "Tuple", "Optional", "Union", "...", "frozenset", "FrozenSet")]
+    return all(x in IMMUTABLE_RETURNS for x in toks)
 
 
 class _Fn:
@@ -601,6 +627,9 @@ class _Fn:
                         ov, _ = self.ev(f.value.value, env, handlers, dirty)
                         owner_cls = ov.cls
                     dirty = self.mutate(dirty, recv, e, "call ." + m, tcls=owner_cls or recv.cls, fld=fld)
+                    if self.is_doc(recv.own):
+                        for a in args:
+                            self.capture(a, e)
                 return recv.reach(), dirty
             res = NONE
             d0, acc = dirty, dirty
@@ -772,7 +801,29 @@ class _Fn:
                 c = self.ann_cls(fn.returns)
                 if c:
                     ret = ret.with_cls(c, self.ann_soft(fn.returns))
+        if memoised(callee) and not immutable_annotation(fn.returns):
+            # every caller receives the very same object: process-shared state
+            g = "G:cache:" + key
+            ret = Val(ret.own | {g}, ret.deep | {g}, ret.cls, ret.soft, ret.root, None)
+        # captured parameters: the callee stores them into an object the caller owns
+        for p_ in sorted(s.captures):
+            a = amap.get(p_)
+            if a is not None:
+                self.capture(a, node)
+        for rec in s.shared_into_doc:
+            if rec not in self.S.shared_into_doc:
+                self.S.shared_into_doc.append(rec)
         return ret, dirty
+
+    def capture(self, v: "Val", node) -> None:
+        """`v` is being stored into an object owned by a caller (document state)"""
+        for o in v.deep | v.own:
+            if o.startswith("G:cache:"):
+                rec = (self.f.key, node, self.txt(node), o)
+                if not any(r[0] == rec[0] and r[2] == rec[2] and r[3] == rec[3] for r in self.S.shared_into_doc):
+                    self.S.shared_into_doc.append(rec)
+            elif not o.startswith(("G:", "D:")):
+                self.S.captures.add(o)
 
     def inline_closure(self, clo, e, args, kw, handlers, dirty):
         _, fn, cenv = clo
@@ -849,6 +900,8 @@ class _Fn:
             if base.own:
                 reg = t.attr in REGISTRY_ATTRS
                 dirty = self.mutate(dirty, base, node, "store ." + t.attr, tcls=base.cls, fld=t.attr, registry=reg)
+                if not reg and self.is_doc(base.own):
+                    self.capture(v, node)
             elif isinstance(t.value, ast.Name) and isinstance(env.get(t.value.id), Val):
                 env[t.value.id] = env[t.value.id].stored(v)
             return dirty
@@ -876,6 +929,8 @@ class _Fn:
                     ov, _ = self.ev(t.value.value, env, handlers, dirty)
                     owner_cls = ov.cls
                 dirty = self.mutate(dirty, base, node, "subscript " + dunder, tcls=owner_cls or base.cls, fld=fld, registry=reg)
+                if not reg and self.is_doc(base.own):
+                    self.capture(v, node)
             elif isinstance(t.value, ast.Name) and isinstance(env.get(t.value.id), Val):
                 env[t.value.id] = env[t.value.id].stored(v)
             return dirty
